@@ -338,8 +338,8 @@ impl Prop for C08 {
     }
     fn runs(&self, tier: Tier) -> u64 {
         match (tier, cfg!(debug_assertions)) {
-            (Tier::Quick, true) => 500_000,
-            (Tier::Quick, false) => 500_000,
+            (Tier::Quick, true) => 1_500_000,
+            (Tier::Quick, false) => 1_500_000,
             (Tier::Thorough, true) => 60_000_000,
             (Tier::Thorough, false) => 60_000_000,
         }
